@@ -291,10 +291,10 @@ Proof.
     apply (inv_coh_maint st); simpl; auto.
     + rewrite He. apply ents_le_refl.
     + apply back_same; auto.
-  - inversion H; subst. apply (inv_coh_maint st); auto.
-    + simpl. apply ents_le_map. intros en. destruct (stale_in c (gens st) en); auto.
-    + simpl. apply back_map with (f := fun e => if stale_in c (gens st) e then delete_stale e else e); auto.
-      intros en. destruct (stale_in c (gens st) en); auto.
+  - rewrite clean_cache_v_repaired in H. inversion H; subst. apply (inv_coh_maint st); auto.
+    + simpl. apply ents_le_map. intros en. unfold delete_stale_in. destruct (stale_in c (gens st) en); auto.
+    + simpl. apply back_map with (f := delete_stale_in c (gens st)); auto.
+      intros en. unfold delete_stale_in. destruct (stale_in c (gens st) en); auto.
   - inversion H; subst. apply (inv_coh_maint st); auto using ents_le_refl. apply back_same; auto.
   - inversion H; subst. unfold rel_collect. destruct (released_idx _ _ _); apply (inv_coh_maint st); auto using ents_le_refl; apply back_same; auto.
   - unfold rel_remove in H. destruct (pendrel st); [|discriminate]. inversion H; subst.
